@@ -27,7 +27,9 @@ META = {
     "pair (thorough: triple) of queries per iteration in {% for %} bodies over the same iterable forms, with and "
     "without loop filter and else, recursive loops over all forests of <= 5 nodes and depth <= 3, in sync and "
     "enable_async environments; loops with else left through {% break %}/{% continue %} (loopcontrols extension, "
-    "unconditional and conditional on the item): else iff no item passed the filter, break ends the visit sequence.",
+    "unconditional and conditional on the item): else iff no item passed the filter, break ends the visit sequence; "
+    "loops whose only use of `loop` sits in a {% block scoped %} placed directly, inside if or inside with, alone and "
+    "nested in an outer loop that uses its own `loop`.",
     "note": "Queries are enabled only between the first successful advance and exhaustion (the loop body); items are "
     "distinct ints, changed() is fed item//2 so that equal consecutive keys occur; async code is driven to completion "
     "by hand (nothing suspends), a subset additionally through Template.render/asyncio.run.",
@@ -643,6 +645,70 @@ def ctl_shard(arg) -> core.Part:
     return p
 
 
+# loop used only inside a scoped block --------------------------------------------
+
+PLACEMENTS = ("direct", "if", "with")
+
+
+def blk_source(query, placement, nested):
+    blk = "{% block b1 scoped %}{{ " + Q_SRC[query] + " }}{% endblock %}"
+    if placement == "if":
+        blk = "{% if true %}" + blk + "{% endif %}"
+    elif placement == "with":
+        blk = "{% with z = 1 %}" + blk + "{% endwith %}"
+    inner = "{% for x in " + ("s" if nested else "seq") + " %}[{{ x }}|" + blk + "]{% endfor %}"
+    if nested:
+        return "{% for s in seqs %}<{{ loop.index }}:" + inner + ">{% endfor %}"
+    return inner
+
+
+def ref_blk(n, query, nested):
+    one = ref_flat(items_of(n), None, (query,), False)
+    if nested:
+        return "".join("<%d:%s>" % (i + 1, one) for i in range(3))
+    return one
+
+
+def blk_shard(arg) -> core.Part:
+    is_async, nmax = arg
+    import jinja2
+
+    p = core.Part()
+    tag = "async" if is_async else "sync"
+    forms = ("list", "gen", "agen") if is_async else ("list", "gen")
+    outs = set()
+    for query in QUERIES:
+        for placement in PLACEMENTS:
+            for nested in (False, True):
+                src = blk_source(query, placement, nested)
+                tmpl = jinja2.Environment(enable_async=is_async).from_string(src)
+                for n in range(nmax + 1):
+                    want = ref_blk(n, query, nested)
+                    for form in forms:
+                        items = items_of(n)
+                        try:
+                            got = render(tmpl, is_async, form == "list" and is_async,
+                                         seq=make_iterable(form, items),
+                                         seqs=[make_iterable(form, items) for _ in range(3)])
+                        except Exception as e:  # noqa: BLE001
+                            got = ("exc", type(e).__name__, str(e)[:80])
+                        p.evals += 1
+                        if got != want:
+                            p.violation(f"C07/scoped-block/{tag}/{placement}/{'nested' if nested else 'single'}/{query}", {
+                                "msg": f"{tag} {src!r} over {form} of {n} items: got {got!r}, expected {want!r}",
+                                "script": ("import jinja2\n"
+                                           f"env = jinja2.Environment(enable_async={is_async!r})\n"
+                                           f"items = {items!r}\n"
+                                           f"print(repr(env.from_string({src!r}).render(seq=list(items), seqs=[list(items)] * 3)))\n")})
+                    outs.add(want)
+    p.sample({"kind": "loop used only inside a scoped block", "env": tag, "source": blk_source("revindex", "if", True),
+              "expected over 3 x [10,11]": ref_blk(2, "revindex", True)}, cap=1)
+    for o in outs:
+        p.sig(("blk", o))
+    p.count("scoped_block_renders", p.evals)
+    return p
+
+
 def chunks(xs, n):
     k = max(1, (len(xs) + n - 1) // n)
     return [xs[i:i + k] for i in range(0, len(xs), k)]
@@ -676,6 +742,7 @@ def run(ctx: core.Ctx):
     ctx.pmap(rec_shard, [(a, c, 4 if ctx.quick else 5) for a in (False, True) for c in chunks(qr, 24 if ctx.quick else 48)])
     combos = [(c, q) for c in CTLS for q in (None,) + QUERIES]
     ctx.pmap(ctl_shard, [(a, c, nmax) for a in (False, True) for c in chunks(combos, 16)])
+    ctx.pmap(blk_shard, [(a, nmax) for a in (False, True)])
     tr = ctx.counters.get("transitions", 0)
     ctx.cov["states"] = ctx.counters.get("states", 0)
     ctx.cov["transitions"] = tr
